@@ -272,6 +272,11 @@ func c02(r *mon.Run) {
 		// true / false / null written bare are member names (absent here: null), not constants
 		gen.Cmp("==", gen.Field("a"), &gen.Expr{K: gen.KField, Name: "true"}), gen.Cmp("!=", gen.Field("a"), &gen.Expr{K: gen.KField, Name: "null"}), gen.Cmp("==", &gen.Expr{K: gen.KField, Name: "false"}, gen.Field("a")),
 		gen.Cmp("==", gen.Field("a"), gen.LitJSON("true")), &gen.Expr{K: gen.KField, Name: "true"}, gen.Not(&gen.Expr{K: gen.KField, Name: "null"}),
+		// the negation of a comparison is not the complementary comparison: an ordering of a non-number is null, and !null holds
+		gen.Not(gen.Paren(gen.Cmp("<", gen.Field("a"), gen.LitJSON("2")))), gen.Not(gen.Paren(gen.Cmp("<=", gen.Field("a"), gen.LitJSON("1")))), gen.Not(gen.Paren(gen.Cmp(">", gen.Field("a"), gen.LitJSON("1")))), gen.Not(gen.Paren(gen.Cmp(">=", gen.Field("a"), gen.Field("b")))),
+		gen.Not(gen.Paren(gen.Cmp("<", gen.Current(), gen.LitJSON("2")))), gen.Not(gen.Paren(gen.Cmp(">", gen.LitJSON("1"), gen.Field("a")))), gen.Not(gen.Paren(gen.Cmp("!=", gen.Field("a"), gen.LitJSON("1")))), gen.Not(gen.Not(gen.Paren(gen.Cmp("<", gen.Field("a"), gen.LitJSON("2"))))),
+		gen.And(gen.Not(gen.Paren(gen.Cmp(">=", gen.Field("a"), gen.LitJSON("1")))), gen.Not(gen.Paren(gen.Cmp("<", gen.Field("a"), gen.LitJSON("1"))))), gen.Cmp("==", gen.Paren(gen.Cmp("<", gen.Field("a"), gen.LitJSON("2"))), gen.LitJSON("null")),
+		gen.Cmp("==", gen.Paren(gen.Cmp(">", gen.Field("a"), gen.LitJSON("0"))), gen.LitJSON("false")), gen.Or(gen.Cmp("<", gen.Field("a"), gen.LitJSON("2")), gen.Cmp(">=", gen.Field("a"), gen.LitJSON("2"))),
 	}
 	fshapes := []func(c *gen.Expr) *gen.Expr{
 		func(c *gen.Expr) *gen.Expr { return gen.Chain(nil, gen.StFilter(c)) }, func(c *gen.Expr) *gen.Expr { return gen.Chain(gen.Field("a"), gen.StFilter(c)) },
